@@ -66,6 +66,7 @@ EXPECT = {
     'ANG1': [('FixtureLint::Units', 'units')],
     'ONE1': [('FixtureLint::InZone', 'dlon')],
     'AUX1': [('FixtureLint::Rect', 'chi1 as phi')],
+    'CP2': [('FixtureLint::AltSum', '_a/_alt_a')],
     'CP1': [('FixtureLint::Pad', 'easting/northing')],
     'X7r': [('FixtureShared::HalfFilled', 'alpha_')],
     'K7': [('FixtureRaster::probe', 'B1 filepos column')],
@@ -158,6 +159,9 @@ def run_controls(rules):
         elif r == 'AUX1':
             from .rules import angles
             res = angles.rule_AUX1(fx, None)[0]
+        elif r == 'CP2':
+            from .rules import lint
+            res = lint.rule_CP2(fx, None)[0]
         elif r == 'CP1':
             from .rules import lint
             res = lint.rule_CP1(fx, None)[0]
